@@ -29,4 +29,20 @@ META = {
         ),
         "technique": "runtime oracle vs forward reference over exhaustive small waveforms + numba bounds-check sanitizer",
     },
+    "C19": {
+        "level_text": (
+            "find_peaks / find_peak_groups are compared with a forward reference clustering on seeded random hit "
+            "sets (1..12 hits, 4 channels, swept gap / extensions / max_duration / cuts); sum_waveform and "
+            "store_downsampled_waveform with a sample-by-sample reference built from records and hits incl. "
+            "down-sampling and area conservation; merge_peaks / replace_merged / add_lone_hits with their "
+            "definitions; split_peaks (both splitters, 1-2 iterations) must tile every parent; the helpers are "
+            "compared with their defining formulas on all waveforms of <= 7 samples over {0,1,2,5}. Repeated "
+            "under numba bounds checking."
+        ),
+        "level_note": (
+            "trusted: references in vf/checks/c19.py; find_peaks duration cut only in the two regimes where "
+            "statement and code agree on the meaning of duration; float32 tolerance 1e-4"
+        ),
+        "technique": "runtime oracle vs forward reference models on generated hits/records/peaks + numba bounds-check sanitizer",
+    },
 }
